@@ -12,7 +12,7 @@ package main
 // operands are not of basic type (`f != nil`) is a Bool leaf as a whole.
 //
 // A site is addressed by (function, kind, anchor text, ordinal among the matches, expected number
-// of matches): if the number of matches changes the translator fails (the code was restructured);
+// of matches; anchors avoid comparison operators so that a changed operator changes the def, not the address): if the number of matches changes the translator fails (the code was restructured);
 // if only the expression changes the def changes, and the theorems/models that use it notice.
 
 import (
@@ -35,12 +35,12 @@ type exprSite struct {
 var exprSites = []exprSite{
 	// admission of new DATA (popPendingDataChunksToSend)
 	{"popPending_exceedsCwnd", "Association.popPendingDataChunksToSend", "cond", "a.CWND()", 0, 1},
-	{"popPending_exceedsRwnd", "Association.popPendingDataChunksToSend", "cond", "dataLen > a.RWND()", 0, 1},
-	{"popPending_firstTooBig", "Association.popPendingDataChunksToSend", "cond", "addBytes > int(a.MTU())", 0, 1},
-	{"popPending_packetFull", "Association.popPendingDataChunksToSend", "cond", "bytesInPacket + chunkBytes > int(a.MTU())", 0, 1},
+	{"popPending_exceedsRwnd", "Association.popPendingDataChunksToSend", "cond", "a.RWND()", 0, 2},
+	{"popPending_firstTooBig", "Association.popPendingDataChunksToSend", "cond", "addBytes", 0, 3},
+	{"popPending_packetFull", "Association.popPendingDataChunksToSend", "cond", "bytesInPacket + chunkBytes", 0, 1},
 	{"popPending_rwndAfterSend", "Association.popPendingDataChunksToSend", "arg", "a.setRWND", 0, 3},
-	{"popPending_probeAllowedSize", "Association.popPendingDataChunksToSend", "cond", "addBytes <= int(a.MTU())", 0, 1},
-	{"popPending_probeExhaustsRwnd", "Association.popPendingDataChunksToSend", "cond", "dataLen >= a.RWND()", 0, 1},
+	{"popPending_probeAllowedSize", "Association.popPendingDataChunksToSend", "cond", "addBytes", 2, 3},
+	{"popPending_probeExhaustsRwnd", "Association.popPendingDataChunksToSend", "cond", "a.RWND()", 1, 2},
 	{"popPending_rwndAfterProbe", "Association.popPendingDataChunksToSend", "arg", "a.setRWND", 2, 3},
 	// bundling
 	{"bundle_packetFull", "Association.bundleDataChunksIntoPackets", "cond", "int(a.MTU())", 0, 1},
@@ -48,32 +48,32 @@ var exprSites = []exprSite{
 	{"rtx_awnd", "Association.getDataPacketsToRetransmit", "assign", "awnd", 0, 1},
 	{"rtx_isProbe", "Association.getDataPacketsToRetransmit", "cond", "i == 0", 0, 1},
 	{"rtx_exceedsWindow", "Association.getDataPacketsToRetransmit", "cond", "int(awnd)", 0, 1},
-	{"rtx_firstTooBig", "Association.getDataPacketsToRetransmit", "cond", "addBytes > int(a.MTU())", 0, 1},
-	{"rtx_packetFull", "Association.getDataPacketsToRetransmit", "cond", "bytesInPacket + chunkBytes > int(a.MTU())", 0, 1},
+	{"rtx_firstTooBig", "Association.getDataPacketsToRetransmit", "cond", "addBytes", 0, 2},
+	{"rtx_packetFull", "Association.getDataPacketsToRetransmit", "cond", "bytesInPacket + chunkBytes", 0, 1},
 	// fast retransmission gather
 	{"fastRtx_wnd", "Association.gatherOutboundFastRetransmissionPackets", "assign", "fastRetransWnd", 0, 1},
-	{"fastRtx_skip", "Association.gatherOutboundFastRetransmissionPackets", "cond", "chunkPayload.missIndicator < 3", 0, 1},
-	{"fastRtx_exceedsWnd", "Association.gatherOutboundFastRetransmissionPackets", "cond", "fastRetransWnd <", 0, 1},
-	{"fastRtx_firstTooBig", "Association.gatherOutboundFastRetransmissionPackets", "cond", "addBytes > int(a.MTU())", 0, 1},
-	{"fastRtx_packetFull", "Association.gatherOutboundFastRetransmissionPackets", "cond", "bytesInPacket + chunkBytes > int(a.MTU())", 0, 1},
+	{"fastRtx_skip", "Association.gatherOutboundFastRetransmissionPackets", "cond", "chunkPayload.missIndicator", 0, 1},
+	{"fastRtx_exceedsWnd", "Association.gatherOutboundFastRetransmissionPackets", "cond", "fastRetransSize + chunkBytes", 0, 1},
+	{"fastRtx_firstTooBig", "Association.gatherOutboundFastRetransmissionPackets", "cond", "addBytes", 0, 2},
+	{"fastRtx_packetFull", "Association.gatherOutboundFastRetransmissionPackets", "cond", "bytesInPacket + chunkBytes", 0, 1},
 	// congestion control
 	{"initialCwnd", "createAssociationFromConfigWithTsn", "arg", "assoc.setCWND", 0, 1},
 	{"t3_ssthresh", "Association.onRetransmissionTimeout", "assign", "a.ssthresh", 0, 1},
 	{"t3_cwndArg", "Association.onRetransmissionTimeout", "arg", "a.setCWND", 0, 1},
 	{"fastRecovery_ssthresh", "Association.processFastRetransmission", "assign", "a.ssthresh", 0, 1},
 	{"fastRecovery_cwndArg", "Association.processFastRetransmission", "arg", "a.setCWND", 0, 1},
-	{"cumAck_inSlowStart", "Association.onCumulativeTSNAckPointAdvanced", "cond", "a.CWND() <= a.ssthresh", 0, 1},
+	{"cumAck_inSlowStart", "Association.onCumulativeTSNAckPointAdvanced", "cond", "a.ssthresh", 0, 1},
 	{"cumAck_slowStartGrows", "Association.onCumulativeTSNAckPointAdvanced", "cond", "!a.inFastRecovery", 0, 1},
 	{"cumAck_slowStartCwndArg", "Association.onCumulativeTSNAckPointAdvanced", "arg", "a.setCWND", 0, 2},
-	{"cumAck_caGrows", "Association.onCumulativeTSNAckPointAdvanced", "cond", "a.partialBytesAcked >= a.CWND()", 0, 1},
+	{"cumAck_caGrows", "Association.onCumulativeTSNAckPointAdvanced", "cond", "a.partialBytesAcked", 0, 1},
 	{"cumAck_caStep", "Association.onCumulativeTSNAckPointAdvanced", "assign", "step", 0, 1},
 	{"cumAck_caCwndArg", "Association.onCumulativeTSNAckPointAdvanced", "arg", "a.setCWND", 1, 2},
 	// peer window after a SACK
-	{"sack_windowFull", "Association.handleSack", "cond", "bytesOutstanding >=", 0, 1},
+	{"sack_windowFull", "Association.handleSack", "cond", "bytesOutstanding", 0, 1},
 	{"sack_rwndArg", "Association.handleSack", "arg", "a.setRWND", 1, 2},
 	// buffered amount release
-	{"release_underflows", "Stream.onBufferReleased", "cond", "s.bufferedAmount < uint64(nBytesReleased)", 0, 1},
-	{"release_crossesLow", "Stream.onBufferReleased", "cond", "fromAmount > s.bufferedAmountLow", 0, 1},
+	{"release_underflows", "Stream.onBufferReleased", "cond", "uint64(nBytesReleased)", 0, 1},
+	{"release_crossesLow", "Stream.onBufferReleased", "cond", "s.onBufferedAmountLow", 0, 1},
 }
 
 type leaf struct{ name, lty string }
